@@ -239,6 +239,11 @@ class Engine:
                     self.spec_funcs[st.name] = st
         from . import builtins as _b
         self.b = _b.Builtins(self)
+        # dictionaries of the entry heap: their key storage is internal and belongs to exactly one dictionary
+        dk = z3.Const("H_DKEYS", z3.ArraySort(z3.IntSort(), z3.IntSort()))
+        x = z3.Int("dk!")
+        self.axioms.append(FA([x], z3.And(IS_KEYS(z3.Select(dk, x)), KEYS_OWNER(z3.Select(dk, x)) == x),
+                              patterns=[z3.Select(dk, x)]), keys={"IS_KEYS", "KEYS_OWNER"})
 
     # ------------------------------------------------------------------ solver helpers
     def quick_sat(self, assumptions, extra=None, full=False):
